@@ -1,6 +1,7 @@
 import Ecal.Lemmas.ExprFuel
 import Ecal.Lemmas.C03Aux
 import Ecal.Lemmas.C03NumberBlock
+import Ecal.Lemmas.C03FirstNumber
 import Ecal.Lemmas.ExprTotal
 import Ecal.Lemmas.ExprSound
 import Ecal.Gen.C03
@@ -875,6 +876,46 @@ theorem other_character_ends_number (l : Ecal.Lex.L) (ds : List Nat) (c : Nat) (
     (Ecal.Lex.lexNumberBlock l).pos = l.pos + ds.length := by
   rw [Ecal.Lex.numberBlock_ascii l hasc, hrem, Ecal.Lex.blockLen_digits_then_other ds hds c rest hc he]
 
+/-- C03 (number literals, complete lexer run): for every ASCII source that starts with a digit, the
+    FIRST token of the complete token list `Ecal.Lex.lex` yields (the list the driver parses) is the
+    NUMBER at offset 0, line 1, column 1 whose text is the longest prefix of the source of the form
+    (digit | `.` | `e+`digit)* — provided that prefix passes the number test — whatever follows. -/
+theorem first_number_token_of_source (input : List Nat) (d : Nat) (tl : List Nat) (hin : input = d :: tl)
+    (hd : Ecal.Lex.isDig d = true) (hasc : ∀ x ∈ input, x < 128)
+    (hcand : Ecal.Lex.numberCandidate (Ecal.Lex.lowerGo (input.take (Ecal.Lex.blockLen input))) = true) :
+    (Ecal.Lex.lex input).toList.head? =
+      some (Ecal.Lex.Tok.mk Ecal.Lex.tNUMBER 0 (Ecal.Lex.lowerGo (input.take (Ecal.Lex.blockLen input))) false false 0 1 1) :=
+  Ecal.Lex.lex_first_number input d tl hin hd hasc hcand
+
+/-- C03 (known finding `number-exponent-split`, complete lexer run): a source `<digits>e<x>…` with `x`
+    not `+` (`1e5`, `2e-1 …`), or `<digits>E…` (`1E+5`), lexes to a token list whose first token is the
+    NUMBER `<digits>` — never a NUMBER containing the exponent. (What follows, `e5` as an identifier,
+    is shown by the `decide` instances below.) -/
+theorem source_exponent_is_split (d : Nat) (ds : List Nat) (x : Nat) (rest : List Nat) (input : List Nat)
+    (hds : Ecal.Lex.allDig (d :: ds))
+    (hin : input = (d :: ds) ++ 101 :: x :: rest ∧ x ≠ 43 ∨ input = (d :: ds) ++ 69 :: x :: rest)
+    (hasc : ∀ y ∈ input, y < 128) (hcand : Ecal.Lex.numberCandidate (Ecal.Lex.lowerGo (d :: ds)) = true) :
+    (Ecal.Lex.lex input).toList.head? =
+      some (Ecal.Lex.Tok.mk Ecal.Lex.tNUMBER 0 (Ecal.Lex.lowerGo (d :: ds)) false false 0 1 1) := by
+  have hb : Ecal.Lex.blockLen input = (d :: ds).length := by
+    rcases hin with ⟨h, hx⟩ | h
+    · rw [h]; exact Ecal.Lex.blockLen_exponent_without_plus _ hds x rest hx
+    · rw [h]; exact Ecal.Lex.blockLen_upper_exponent _ hds (x :: rest)
+  have ht : input.take (Ecal.Lex.blockLen input) = d :: ds := by
+    rw [hb]
+    rcases hin with ⟨h, _⟩ | h <;> rw [h] <;> simp
+  have hhead : ∃ tl, input = d :: tl := by
+    rcases hin with ⟨h, _⟩ | h <;> exact ⟨_, by rw [h]; rfl⟩
+  obtain ⟨tl, htl⟩ := hhead
+  have := first_number_token_of_source input d tl htl (hds d (by simp)) hasc (by rw [ht]; exact hcand)
+  rw [ht] at this
+  exact this
+
+/-- non-vacuity of `source_exponent_is_split`: the source `1e5` -/
+example : (Ecal.Lex.lex [49, 101, 53]).toList.head? = some (Ecal.Lex.Tok.mk Ecal.Lex.tNUMBER 0 [49] false false 0 1 1) :=
+  source_exponent_is_split 49 [] 53 [] [49, 101, 53] (by intro d hd; simp at hd; subst hd; decide)
+    (Or.inl ⟨rfl, by decide⟩) (by intro y hy; simp at hy; omega) (by decide +kernel)
+
 /-- non-vacuity: the hypotheses of `exponent_is_split` hold for the source `1e5` in the start state, and
     for `1E+5`; `1e+5` is kept; `1 -2` ends after `1` -/
 example : (Ecal.Lex.lexWord ({ inp := #[49, 101, 53] } : Ecal.Lex.L)).1.toks.toList.map (fun t => (t.id, t.val))
@@ -894,8 +935,8 @@ def lexKinds (src : String) : List (Nat × List Nat) :=
 /-! ### number-literal splitting: instances (tests of the lexer model the driver runs). Proved in
     general above: a NUMBER token's text starts with a digit and is accepted by ParseFloat. Proved in general
     above as well (ASCII input): where `lexNumberBlock` ends the block, and the split of `1e5` / `1E+5`.
-    NOT proved in general: the same for the complete token list of `lex` on such a source (what follows
-    the NUMBER token) — the instances below show it -/
+    Proved for the complete run of `lex`: the FIRST token of such a source. NOT proved in general:
+    the tokens after it (that `e5` then lexes as an identifier) — the instances below show it -/
 
 /-- `1 -2` : number, minus, number -/
 example : lexKinds "1 -2" = [(6, [49]), (34, [45]), (6, [50]), (1, [])] := by decide +kernel
